@@ -509,6 +509,15 @@ Definition usable (cl : cluster) (pol : policy) (rq : request) (n : N) : bool :=
 Definition pool_has_shard (p : pool_view) (s : N) : bool :=
   existsb (fun c => N.eqb (conn_shard c) s) (pool_conns p).
 
+(* acceptor of the pool tie: a request aimed at (node, shard [want]) through connection_for_shard
+   was served by a connection whose server-side shard is [sh] *)
+Definition accept_conn_shard (p : pool_view) (want sh : N) : bool :=
+  pool_has_shard p sh &&
+  match pool_sharder p with
+  | Some _ => if pool_has_shard p (shard_u16 want) then N.eqb sh (shard_u16 want) else true
+  | None => true
+  end.
+
 (* THE PROPERTY for one execution, given where its first frame was seen:
    [obs] = Some (node, server-side shard of the connection) | None = nothing was sent *)
 Definition route_prop (cl : cluster) (cfg : exec_cfg) (st : statement)
@@ -529,7 +538,8 @@ Definition route_prop (cl : cluster) (cfg : exec_cfg) (st : statement)
       (forall d, pref_dc (eff_pref (ex_pol cfg) rq) = Some d ->
          (exists r', In r' own /\ c_alive cl (fst r') = true /\ in_dc (c_dcf cl) d (fst r') = true) ->
          in_dc (c_dcf cl) d n = true) /\
-      (* ... on a connection bound to the owning shard whenever the pool has one *)
+      (* ... on a connection bound to the owning shard whenever the pool has one (a tablet that
+         lists the node twice, with two shards, owns the token on both: either is accepted) *)
       (pool_sharder (c_pool cl n) <> None ->
        exists r', In r' own /\ fst r' = n /\
                   (pool_has_shard (c_pool cl n) (shard_u16 (snd r')) = true -> sh = shard_u16 (snd r'))).
